@@ -140,6 +140,9 @@ func H_C14_torn_last_record_is_never_replayed() {
 		m, err := dec.Decode()
 		if err != nil {
 			verifReach("ended")
+			// "followed by end-of-log or a corruption error": the search for the replay start skips
+			// corruption errors and stops at end-of-log, anything else makes it give up
+			verifAssert(err == io.EOF || IsDataCorruptionError(err), "torn-record-is-reported-as-end-of-log-or-corruption")
 			break
 		}
 		verifAssert(got < n, "never-more-records-than-written")
